@@ -143,10 +143,11 @@ let run (name : string) (args : arg list) : string =
   | "Tausche", [Z a; Z b] -> let (a', b') = tausche a b in out [""; pz a'; pz b']
   | "Quicksort_Ref", [L l] -> out [""; pl (get (quicksort_Ref l))]
   | "Quicksort", [L l] -> out [pl (get (quicksort l)); pl l]
+  | "Quicksort_Tiefe", [L l] -> let (_, d) = get (quicksort_Tiefe l) in out [pz d]
   (* ---- Mathe / Statistik ---- *)
-  | "Max", [Z a; Z b] -> out [pz (max a b); pz a; pz b]
+  | "Max", [Z a; Z b] -> out [pz (c17_Max a b); pz a; pz b]
   | "Max3", [Z a; Z b; Z c] -> out [pz (max3 a b c); pz a; pz b; pz c]
-  | "Min", [Z a; Z b] -> out [pz (min a b); pz a; pz b]
+  | "Min", [Z a; Z b] -> out [pz (c17_Min a b); pz a; pz b]
   | "Min3", [Z a; Z b; Z c] -> out [pz (min3 a b c); pz a; pz b; pz c]
   | "Clamp", [Z w; Z mx; Z mn] -> out [pz (clamp w mx mn); pz w; pz mx; pz mn]
   | "Sign", [Z w] -> out [pz (sign w); pz w]
